@@ -2,27 +2,35 @@
 
 package shimagent
 
-// C20 harness, direct binding: drives (*Server).Wait and (*Server).Broadcast of a real shim server (over a real
-// keyring behind the harness frame proxy) and observes the notify lists of s.conds.  Judging is done by TLC.
+// C20 harness, direct binding: drives Wait and Broadcast of a real shim server (constructed with the exported New
+// over a unix socket whose far end is a real keyring behind the harness frame proxy) and observes the notify lists
+// of its condition variables by reflection (falls back to a timing observer when there is no such table).
+// Only exported names of the package are used, every package-level name of this file starts with zvq.
+// Judging is done by TLC.
 
 import (
 	"encoding/json"
+	"errors"
 	"fmt"
 	mrand "math/rand"
 	"testing"
 
 	"github.com/theparanoids/ysshra/verifh"
-	"golang.org/x/crypto/ssh/agent"
 )
 
-type directWait struct {
-	s  *Server
-	px *verifh.Proxy
+type zvqWaiter interface {
+	Wait(byte) error
+	Broadcast(byte) error
 }
 
-func (b *directWait) Via() bool { return false }
+type zvqDirectWait struct {
+	s  zvqWaiter
+	sa ShimAgent
+}
 
-func (b *directWait) Wait(code byte) (pan bool, err error) {
+func (b *zvqDirectWait) Via() bool { return false }
+
+func (b *zvqDirectWait) Wait(code byte) (pan bool, err error) {
 	defer func() {
 		if r := recover(); r != nil {
 			pan, err = true, fmt.Errorf("panic: %v", r)
@@ -31,7 +39,7 @@ func (b *directWait) Wait(code byte) (pan bool, err error) {
 	return false, b.s.Wait(code)
 }
 
-func (b *directWait) Request(code byte, _ *mrand.Rand) (pan bool, err error) {
+func (b *zvqDirectWait) Request(code byte, _ *mrand.Rand) (pan bool, err error) {
 	defer func() {
 		if r := recover(); r != nil {
 			pan, err = true, fmt.Errorf("panic: %v", r)
@@ -40,29 +48,38 @@ func (b *directWait) Request(code byte, _ *mrand.Rand) (pan bool, err error) {
 	return false, b.s.Broadcast(code)
 }
 
-func (b *directWait) Counts() (int, [][2]int, error) { return verifh.CondCounts(b.s) }
+func (b *zvqDirectWait) Counts() (int, [][2]int, error) { return verifh.CondCounts(b.s) }
 
-func (b *directWait) Release() {
-	for _, c := range b.s.conds {
-		c.L.Lock()
-		c.Broadcast()
-		c.L.Unlock()
+func (b *zvqDirectWait) Release() {
+	for c := 0; c < 256; c++ {
+		func() {
+			defer func() { _ = recover() }()
+			_ = b.s.Broadcast(byte(c))
+		}()
 	}
 }
 
-func (b *directWait) Close() {
-	b.s.conn.Close()
-	b.px.Close()
+func (b *zvqDirectWait) Close() {
+	defer func() { _ = recover() }()
+	_ = b.sa.Close()
 }
 
 func TestVerifWait(t *testing.T) {
+	sock, cleanup, err := verifh.KeyringListener("wait-direct")
+	if err != nil {
+		t.Fatal(err)
+	}
+	defer cleanup()
 	mk := func(r *mrand.Rand) (verifh.WaitBinding, error) {
-		px := verifh.NewProxy(agent.NewKeyring(), mrand.New(mrand.NewSource(r.Int63())))
-		s, err := newShimAgent(px.Client, false)
+		sa, err := New(Option{Address: sock})
 		if err != nil {
 			return nil, err
 		}
-		return &directWait{s: s, px: px}, nil
+		w, ok := sa.(zvqWaiter)
+		if !ok {
+			return nil, errors.New("the shim agent has no Wait/Broadcast")
+		}
+		return &zvqDirectWait{s: w, sa: sa}, nil
 	}
 	sum, err := verifh.RunWaitPlan(mk)
 	if err != nil {
